@@ -188,6 +188,9 @@ func resolveTypes(rootPkg *packages.Package, endpoints []Endpoint) {
 			}
 			required = append(required, param.type_)
 		}
+		if ty := endpoint.Contract.InputForm.JSON.type_; ty != nil {
+			required = append(required, ty)
+		}
 	}
 
 	// performs the analysis
